@@ -21,6 +21,8 @@ def mainCall : Call → Bool
   | .policyInactive _ => true
   | .profileActive _ _ => true
   | .profileInactive _ => true
+  | .genUpdate _ _ _ => true
+  | .genRemove _ _ => true
   | _ => false
 
 /-- the IP-set add/remove half of `validAll`, together with "no other kind of call is made" -/
@@ -50,6 +52,8 @@ def quietCall : Call → Bool
   | .memberAdded _ _ => true
   | .memberRemoved _ _ => true
   | .endpointUpdate _ _ => true
+  | .genUpdate _ _ _ => true
+  | .genRemove _ _ => true
   | _ => false
 
 /-- the part of the declared state this file is about -/
@@ -86,6 +90,8 @@ theorem quiet_upApply (u : DP) {c : Call} (h : quietCall c = true) : SameMain u 
       · simp [fupd, hid]
   · rename_i k v
     cases v <;> exact ⟨fun _ => rfl, rfl, rfl⟩
+  · exact ⟨fun _ => rfl, rfl, rfl⟩
+  · exact ⟨fun _ => rfl, rfl, rfl⟩
 
 theorem quiet_upAll : ∀ (cs : List Call) (u : DP), (∀ c ∈ cs, quietCall c = true) →
     SameMain u (upAll u cs) ∧ setValidAll u cs
